@@ -187,7 +187,8 @@ pub fn live_ids() -> Vec<u32> {
     })
 }
 
-#[repr(C)]
+#[cfg_attr(not(feature = "wide-elem"), repr(C))]
+#[cfg_attr(feature = "wide-elem", repr(C, align(64)))]
 pub struct Tracked {
     id: u32,
     val: u32,
